@@ -26,9 +26,16 @@ class TagSim(object):
         self.rlog = []
         self.served = set()
         self.ncmd = 0
+        self.snaps = None      # list: memory image after every executed write
 
     def reset(self):
         pass
+
+    def _wrote(self):
+        """call after a state-changing command has been executed"""
+        self.writes += 1
+        if self.snaps is not None:
+            self.snaps.append(bytes(self.mem))
 
     def _cut(self):
         """call before executing a state-changing command"""
@@ -90,7 +97,7 @@ class T1Tag(TagSim):
             if self._cut():
                 return None
             self._wr(a, cmd[2], code == 0x53)
-            self.writes += 1
+            self._wrote()
             self.wlog.append((self.ncmd, a, 1))
             return bytes([cmd[1], self.mem[a] if a < len(self.mem) else 0])
         dynamic = self.hr[0] & 0x0F != 1
@@ -115,7 +122,7 @@ class T1Tag(TagSim):
                 return None
             for i in range(8):
                 self._wr(base + i, cmd[2 + i], code == 0x54)
-            self.writes += 1
+            self._wrote()
             self.wlog.append((self.ncmd, base, 8))
             data = bytes(self.mem[base:base + 8])
             data += bytes(8 - len(data))
@@ -203,7 +210,7 @@ class T2Tag(TagSim):
                     self.mem[a] |= cmd[2 + i]
                 else:
                     self.mem[a] = cmd[2 + i]
-            self.writes += 1
+            self._wrote()
             self.wlog.append((self.ncmd, addr, 4))
             return b"\x0A"
         if cmd[0] == 0xC2 and cmd[1:] == b"\xFF":
@@ -331,7 +338,7 @@ class T3Tag(TagSim):
                 for i, (sx, num) in enumerate(blks):
                     self.blocks[num][:] = rest[16 * i:16 * i + 16]
                     self.wlog.append((self.ncmd, num * 16, 16))
-                self.writes += 1
+                self._wrote()
                 return self._rsp(0x09, b"\x00\x00")
         except IndexError:
             return None
